@@ -12,6 +12,7 @@ import (
 	"encoding/json"
 	"fmt"
 	"os"
+	"regexp"
 	"os/exec"
 	"sort"
 	"strings"
@@ -41,6 +42,9 @@ func (r *seqRec) Call(tid int, name string, f func() string) {
 	k := fmt.Sprintf("T%d/%s", tid, name)
 	r.out[k] = append(r.out[k], f())
 }
+
+// addrRe matches the address of a lock in a blocked-thread description (not part of a finding's identity).
+var addrRe = regexp.MustCompile(`\(0x[0-9a-f]+\)`)
 
 func Run(r *core.Run) {
 	bound := core.Pick(r, 3, -1)
@@ -104,7 +108,7 @@ func Run(r *core.Run) {
 			caseID := fmt.Sprintf("%s|%v", sc.Name, c.Choices)
 			det := map[string]any{"scenario": sc.Name, "schedule_choices": append([]int{}, c.Choices...), "history": hs}
 			if res.Deadlock {
-				r.Report(caseID, core.Fail{Key: "deadlock/" + sc.Name + "/" + strings.Join(res.Blocked, ";"), What: "deadlock: " + strings.Join(res.Blocked, "; "), Detail: det})
+				r.Report(caseID, core.Fail{Key: "deadlock/" + sc.Name + "/" + addrRe.ReplaceAllString(strings.Join(res.Blocked, ";"), "(lock)"), What: "deadlock: " + strings.Join(res.Blocked, "; "), Detail: det})
 			}
 			for _, rc := range res.Races {
 				r.Report(caseID, core.Fail{Key: "race/" + sc.Name + "/" + rc.Key(), What: fmt.Sprintf("data race on %s between %s and %s (no happens-before order)", rc.Name, rc.A, rc.B), Detail: det})
